@@ -472,6 +472,26 @@ def collect_effects():
     return rows, n_global
 
 
+def class_level_mutables():
+    """class attributes bound to a mutable container at class level (state shared by all instances)."""
+    out = []
+    root = os.path.join(REPO, "opfython")
+    for dirpath, _, files in sorted(os.walk(root)):
+        for fn in sorted(files):
+            if not fn.endswith(".py"):
+                continue
+            path = os.path.join(dirpath, fn)
+            tree = ast.parse(open(path).read())
+            for cls in [n for n in ast.walk(tree) if isinstance(n, ast.ClassDef)]:
+                for st in cls.body:
+                    if isinstance(st, (ast.Assign, ast.AnnAssign)) and st.value is not None:
+                        v = st.value
+                        if isinstance(v, (ast.Dict, ast.List, ast.Set, ast.ListComp, ast.DictComp, ast.SetComp)) or \
+                                (isinstance(v, ast.Call) and ast.unparse(v.func) in ("dict", "list", "set", "defaultdict", "collections.defaultdict", "OrderedDict", "np.zeros", "np.array", "np.empty")):
+                            out.append(f"{os.path.relpath(path, REPO)}:{cls.name}:{st.lineno}")
+    return out
+
+
 def fingerprints():
     """sha256 of the normalised AST (docstrings and logger calls dropped) of every function."""
     out = []
@@ -489,6 +509,39 @@ def fingerprints():
                     body = [b for b in body if not (isinstance(b, ast.Expr) and ast.unparse(b).startswith("logger."))]
                     h = hashlib.sha256(("\n".join(ast.dump(b) for b in body)).encode()).hexdigest()[:16]
                     out.append((f"{rel}:{node.name}:{node.lineno}", h))
+    return out
+
+
+def read_model_forwarding():
+    """for every class under opfython/models: does its __init__ hand its `distance` and
+    `pre_computed_distance` parameters to the base initialiser unchanged?"""
+    out = []
+    root = os.path.join(REPO, "opfython", "models")
+    for fn in sorted(os.listdir(root)):
+        if not fn.endswith(".py") or fn == "__init__.py":
+            continue
+        path = os.path.join(root, fn)
+        tree = ast.parse(open(path).read())
+        for cls in [n for n in tree.body if isinstance(n, ast.ClassDef)]:
+            init = [n for n in cls.body if isinstance(n, ast.FunctionDef) and n.name == "__init__"]
+            ok = False
+            if init:
+                params = [a.arg for a in init[0].args.args]
+                for node in ast.walk(init[0]):
+                    if isinstance(node, ast.Call) and isinstance(node.func, ast.Attribute) and node.func.attr == "__init__" \
+                            and ast.unparse(node.func.value).startswith("super("):
+                        args = [ast.unparse(a) for a in node.args]
+                        kws = {k.arg: ast.unparse(k.value) for k in node.keywords}
+                        got_d = (len(args) >= 1 and args[0] == "distance") or kws.get("distance") == "distance"
+                        got_p = (len(args) >= 2 and args[1] == "pre_computed_distance") or kws.get("pre_computed_distance") == "pre_computed_distance"
+                        ok = got_d and got_p and "distance" in params and "pre_computed_distance" in params
+                # `distance` must not be reassigned before the call
+                for node in ast.walk(init[0]):
+                    if isinstance(node, ast.Assign) and any(isinstance(t, ast.Name) and t.id in ("distance", "pre_computed_distance") for t in node.targets):
+                        ok = False
+            else:
+                ok = True   # inherits OPF.__init__
+            out.append((f"{fn}:{cls.name}", ok))
     return out
 
 
@@ -543,6 +596,10 @@ def main():
            "def whitelist : List String := [" + ", ".join(f'"{w}"' for w in wl) + "]", "",
            f'/-- right-hand side of `self.distance_fn = …` in `OPF.__init__` -/',
            f'def distanceFnLookup : String := "{lookup}"', ""]
+    fw = read_model_forwarding()
+    reg.append("/-- (model class, its __init__ forwards `distance` and `pre_computed_distance` unchanged to OPF.__init__) -/")
+    reg.append("def modelForwards : List (String × Bool) := [" + ", ".join(f'("{a}", {str(b).lower()})' for a, b in fw) + "]")
+    reg.append("")
     for k, v in consts.items():
         if v == "FLOAT_MAX":
             reg.append(f"def const_{k}_isFloatMax : Bool := true")
@@ -571,7 +628,10 @@ def main():
            "view of a parameter, self = the receiver, local = an object created inside the function. -/",
            "def stores : List (String × String × String × Nat) := ["]
     eff.append(",\n".join(f'  ("{a}", "{b}", "{c}", {d})' for a, b, c, d in rows))
-    eff += ["]", "", f"/-- number of names declared `global` inside functions -/", f"def globalDecls : Nat := {n_global}", "", "end Opf.Gen"]
+    cm = class_level_mutables()
+    eff += ["]", "", f"/-- number of names declared `global` inside functions -/", f"def globalDecls : Nat := {n_global}", "",
+            "/-- class attributes bound to a mutable container at class level (shared across instances) -/",
+            "def classLevelMutables : List String := [" + ", ".join(f'"{c}"' for c in cm) + "]", "", "end Opf.Gen"]
     write(os.path.join(GEN, "Effects.lean"), "\n".join(eff) + "\n")
 
     fps = fingerprints()
